@@ -19,15 +19,12 @@ rm "$WT/$DEST"
 ( cd $WT && go test -count=1 ./... > /tmp/seed-suite.log 2>&1 ); S=$?
 echo "demo without change: rc=$W (want 0); with change: rc=$X (want !=0); suite with change: rc=$S (want 0)"
 if [ $W != 0 ] || [ $X = 0 ] || [ $S != 0 ]; then echo "NOT CONFIRMED"; tail -5 /tmp/seed-without.log /tmp/seed-with.log /tmp/seed-suite.log; exit 1; fi
-cd /repo && [ -z "$(git status --porcelain --untracked-files=no)" ] || { echo "repo dirty"; exit 3; }
-git -C /repo apply "$OUT/patch.diff" || exit 3
 RES=""
 for p in $PROP $EXTRA; do
-  ( cd /verif && timeout 1800 ./verif check $p --tier ${TIER:-quick} > /tmp/seed-check-$p.log 2>&1 ); rc=$?
+  out=$(/verif/tools/isolated.sh "$OUT/patch.diff" $p 2>&1); echo "$out" | head -4
+  rc=$(echo "$out" | sed -n 's/.*isolated result for [A-Z0-9]*: rc=\([0-9]*\).*/\1/p' | head -1)
   RES="$RES $p:rc=$rc"
-  echo "check $p on seeded tree: rc=$rc"; grep -m2 "VIOLATION\|rapid\] failed\|rapid\] panic\|VERIF-VIOLATION" /tmp/seed-check-$p.log | cut -c1-400
 done
-git -C /repo checkout -- .
 n=1; while [ -e /verif/seeded/$PROP-$n ]; do n=$((n+1)); done
 D=/verif/seeded/$PROP-$n; mkdir -p $D
 cp "$OUT/patch.diff" $D/; cp "$OUT/$DEMO" $D/; [ -f "$OUT/notes.md" ] && cp "$OUT/notes.md" $D/
